@@ -8,7 +8,7 @@ impl FragmentNumber {
 @@extract const src/structure/sequence_number.rs FragmentNumber::INVALID
 @@extract fn src/structure/sequence_number.rs FragmentNumber::new
 @@ret r
-@@ensures fn.new
+@@ensures frag.fn.new
     r.0 == value
 @@end
 }
@@ -20,7 +20,7 @@ impl From<FragmentNumber> for u32 {
 @@extract fn src/structure/sequence_number.rs "From<FragmentNumber> for u32::from"
 @@nopub
 @@ret r
-@@ensures fn.into_u32
+@@ensures frag.fn.into_u32
     r == fragment_number.0
 @@end
 }
@@ -32,7 +32,7 @@ impl From<FragmentNumber> for usize {
 @@extract fn src/structure/sequence_number.rs "From<FragmentNumber> for usize::from"
 @@nopub
 @@ret r
-@@ensures fn.into_usize
+@@ensures frag.fn.into_usize
     r == fragment_number.0 as usize
 @@end
 }
